@@ -48,6 +48,12 @@ C01_CORPUS = [
     ({'screen_content_mode': 1, 'enc_mode': 6, 'palette_level': 6, 'intrabc_mode': 1}, {'kind': 'text', 'seed': 10}, 5, (128, 64)),
     ({'enable_restoration_filtering': 1, 'cdef_level': 1, 'enc_mode': 4}, {'kind': 'hgrad', 'seed': 11}, 4, (128, 128)),
     ({'intra_period_length': 3, 'intra_refresh_type': 2}, {'kind': 'mix', 'seed': 12}, 11, (64, 64)),
+    # tool interactions across tile boundaries: per-tile state (restoration references, CDF contexts, palette/intrabc caches) with
+    # several tile rows *and* columns while the in-loop filters are really in use
+    ({'tile_rows': 1, 'tile_columns': 0, 'enable_restoration_filtering': 1, 'cdef_level': 1, 'enc_mode': 6}, {'kind': 'noise', 'seed': 13}, 5, (192, 256)),
+    ({'tile_rows': 1, 'tile_columns': 1, 'enable_restoration_filtering': 1, 'enc_mode': 5}, {'kind': 'moving', 'seed': 14}, 6, (256, 256)),
+    ({'tile_rows': 2, 'tile_columns': 1, 'enc_mode': 6, 'screen_content_mode': 1, 'palette_level': 6}, {'kind': 'text', 'seed': 15}, 4, (256, 256)),
+    ({'tile_rows': 0, 'tile_columns': 2, 'enable_restoration_filtering': 1, 'enc_mode': 6, 'super_block_size': 64}, {'kind': 'hgrad', 'seed': 16}, 4, (512, 128)),
 ]
 
 def swarm_cases(ck, tier, nq, nt, oracles, corpus, fields_quick=gen.SAFE, kinds=None, nrange=(1, 12), force=None, sizes_small=True):
@@ -271,7 +277,9 @@ def check_c21(tier, seed):
         for k in range(4 if tier == 'quick' else 7):
             c = copy.deepcopy(base); cc = c['content']
             kind = ['pad', 'scribble', 'reuse', 'pad_scribble', 'rows', 'pad', 'scribble'][k % 7]
-            if 'pad' in kind: cc['stride_pad'] = rng.choice([1, 2, 7, 16, 33, 64]); cc['stride_pad_c'] = rng.choice([1, 3, 8, 32]); cc['pad_garbage'] = 1; cc['garbage_seed'] = rng.randint(1, 10**6); ck.ev.fault('stride_padding_garbage')
+            if 'pad' in kind:   # the three planes have independent pitches
+                cc['stride_pad'] = rng.choice([0, 1, 2, 7, 16, 33, 64]); cc['stride_pad_c'] = rng.choice([0, 1, 3, 8, 32]); cc['stride_pad_cr'] = rng.choice([0, 1, 2, 5, 16, 40]); cc['pad_garbage'] = 1; cc['garbage_seed'] = rng.randint(1, 10**6); ck.ev.fault('stride_padding_garbage')
+                if cc['stride_pad_c'] != cc['stride_pad_cr']: ck.ev.probe('cb_stride!=cr_stride')
             if 'scribble' in kind: cc['scribble'] = 1; cc['garbage_seed'] = rng.randint(1, 10**6); ck.ev.fault('scribble_and_free_after_send')
             if kind == 'reuse': cc['reuse_buffer'] = 1; cc['scribble'] = 1; ck.ev.fault('buffer_reuse')
             if kind == 'rows': cc['extra_rows'] = rng.choice([1, 2, 8]); cc['pad_garbage'] = 1; ck.ev.fault('garbage_rows_below')
